@@ -25,8 +25,8 @@ type wsView struct {
 	recs        []known         // records created by accepted events
 	used        map[uint64]bool // every ID stored in the workspace's log (argument rows and creates)
 	explicitArg map[uint64]bool // explicit IDs of synced argument rows
-	maxID       uint64 // highest ID stored or reserved so far
-	maxGen      uint64 // highest ID the generator handed out so far (the live generator is above it)
+	maxID       uint64          // highest ID stored or reserved so far
+	maxGen      uint64          // highest ID the generator handed out so far (the live generator is above it)
 	single      bool
 	resCtr      uint64
 }
@@ -349,7 +349,7 @@ func (g *gen) genEvent(ws uint64, via string) (*eventSpec, []string) {
 			all = append(all, &ev.Creates[i])
 		}
 		kind := ""
-		switch r.Intn(8) {
+		switch r.Intn(9) {
 		case 0:
 			x := all[r.Intn(len(all))]
 			x.Refs[r.Intn(2)] = kit.Pick(r, []uint64{999, 65535, 77})
@@ -362,11 +362,68 @@ func (g *gen) genEvent(ws uint64, via string) (*eventSpec, []string) {
 					kind = "duplicate-id"
 				}
 			}
-		case 2:
+		case 2, 8:
+			// a client-chosen storage ID in a new (not synced) event - preferably on a nested row (argument
+			// ORecord, CUD child), drawn from (a) IDs the workspace already stored, (b) the reserved / singleton
+			// band, (c) IDs at and far above the generator; every occurrence of the row's raw ID is replaced, so
+			// the "raw ID required" rule is the only one the event breaks
 			if !ev.Sync {
-				x := all[r.Intn(len(all))]
-				x.ID = kit.Pick(r, []uint64{65536, 200000, 200001, 300000, 1 << 33})
+				var nested []*rowSpec
+				for _, x := range rows[min(1, len(rows)):] {
+					nested = append(nested, x)
+				}
+				where := "argument-child"
+				if len(nested) == 0 || r.Chance(1, 4) {
+					nested = nil
+					for i := range ev.Creates {
+						if ev.Creates[i].Parent != 0 {
+							nested = append(nested, &ev.Creates[i])
+						}
+					}
+					where = "cud-child"
+				}
+				if len(nested) == 0 || r.Chance(1, 6) {
+					nested = all
+					where = "any-row"
+				}
+				x := nested[r.Intn(len(nested))]
+				var id uint64
+				from := ""
+				switch r.Intn(3) {
+				case 0:
+					var issued []uint64
+					for u := range v.used {
+						if u >= firstUser && u < 1<<53 {
+							issued = append(issued, u)
+						}
+					}
+					sort.Slice(issued, func(i, j int) bool { return issued[i] < issued[j] })
+					if len(issued) > 0 {
+						id, from = kit.Pick(r, issued), "issued"
+					}
+				case 1:
+					id, from = kit.Pick(r, []uint64{maxRaw + 1, maxRaw + 2, maxRaw + 3, maxRaw + 1 + 511, maxRaw + 1 + 512, 70000, firstUser - 1}), "reserved"
+				}
+				if from == "" {
+					id, from = kit.Pick(r, []uint64{v.maxID + 1, v.maxID + 2, v.maxID + 1000, 1 << 33, 1<<40 + 7}), "above"
+				}
+				if old := x.ID; old != 0 {
+					replaceVal(ev, old, id)
+				}
+				x.ID = id
+				if via == "cmd" {
+					// the command processor checks storage-ID references of the argument against the sys.RecordsRegistry
+					// view, which this application does not have: argument rows refer to raw IDs only
+					for _, a := range rows {
+						for k := range a.Refs {
+							if a.Refs[k] > maxRaw {
+								a.Refs[k] = 0
+							}
+						}
+					}
+				}
 				kind = "storage-id-in-new-event"
+				tags = append(tags, "storage-id-in-new-event:"+where, "storage-id-in-new-event:"+from)
 			}
 		case 3:
 			all[r.Intn(len(all))].ID = 0
